@@ -206,6 +206,100 @@ def hoist_conditions(text: str) -> str:
     return ast.unparse(ast.fix_missing_locations(tree)) + "\n"
 
 
+def extract_helpers(text: str) -> str:
+    """Behaviour-preserving: every `if` test and every assigned arithmetic / comparison expression that reads only
+    plain local names and attributes is moved into a new module-level helper `_xhK(names...)`, called in its place."""
+    import builtins
+
+    tree = ast.parse(text)
+    module_names = set(dir(builtins))
+    for st in tree.body:
+        if isinstance(st, (ast.Import, ast.ImportFrom)):
+            for al in st.names:
+                module_names.add((al.asname or al.name).split(".")[0])
+        elif isinstance(st, (ast.FunctionDef, ast.ClassDef)):
+            module_names.add(st.name)
+        elif isinstance(st, ast.Assign):
+            for t in st.targets:
+                if isinstance(t, ast.Name):
+                    module_names.add(t.id)
+    helpers = []
+    counter = [0]
+
+    def extractable(e, local_names):
+        if not isinstance(e, (ast.Compare, ast.BoolOp, ast.BinOp)):
+            return None
+        inner_bound = {n.id for n in ast.walk(e) if isinstance(n, ast.Name) and isinstance(n.ctx, ast.Store)}
+        if inner_bound:
+            return None
+        if any(isinstance(n, (ast.NamedExpr, ast.Yield, ast.YieldFrom, ast.Await, ast.Lambda, ast.Starred)) for n in ast.walk(e)):
+            return None
+        free = []
+        for n in ast.walk(e):
+            if isinstance(n, ast.Name) and isinstance(n.ctx, ast.Load):
+                if n.id in local_names:
+                    if n.id not in free:
+                        free.append(n.id)
+                elif n.id not in module_names:
+                    return None
+                if n.id == "super":
+                    return None
+        return free
+
+    def do_function(fn):
+        local_names = {a.arg for a in fn.args.posonlyargs + fn.args.args + fn.args.kwonlyargs}
+        if fn.args.vararg:
+            local_names.add(fn.args.vararg.arg)
+        if fn.args.kwarg:
+            local_names.add(fn.args.kwarg.arg)
+        for n in ast.walk(fn):
+            if isinstance(n, ast.Name) and isinstance(n.ctx, ast.Store):
+                local_names.add(n.id)
+        # names of enclosing-scope locals are unknown here: only extract in top-level functions / methods
+
+        class T(ast.NodeTransformer):
+            def visit_FunctionDef(self, node):
+                return node if node is not fn else self.generic_visit(node)
+
+            def visit_Lambda(self, node):
+                return node
+
+            def _x(self, e):
+                free = extractable(e, local_names)
+                if free is None:
+                    return e
+                counter[0] += 1
+                nm = f"_xh{counter[0]}"
+                helpers.append(ast.FunctionDef(name=nm, args=ast.arguments(posonlyargs=[], args=[ast.arg(arg=a) for a in free], kwonlyargs=[], kw_defaults=[], defaults=[]),
+                                               body=[ast.Return(value=e)], decorator_list=[], type_params=[]))
+                return ast.Call(func=ast.Name(id=nm, ctx=ast.Load()), args=[ast.Name(id=a, ctx=ast.Load()) for a in free], keywords=[])
+
+            def visit_If(self, node):
+                self.generic_visit(node)
+                node.test = self._x(node.test)
+                return node
+
+            def visit_Assign(self, node):
+                self.generic_visit(node)
+                if len(node.targets) == 1 and isinstance(node.targets[0], (ast.Name, ast.Attribute)):
+                    node.value = self._x(node.value)
+                return node
+
+        T().visit(fn)
+
+    def walk(body, nested):
+        for st in body:
+            if isinstance(st, (ast.FunctionDef, ast.AsyncFunctionDef)):
+                if not any(isinstance(n, (ast.FunctionDef, ast.AsyncFunctionDef)) and n is not st for n in ast.walk(st)) or True:
+                    do_function(st)
+            elif isinstance(st, ast.ClassDef):
+                walk(st.body, nested)
+
+    walk(tree.body, False)
+    tree.body.extend(helpers)
+    return ast.unparse(ast.fix_missing_locations(tree)) + "\n"
+
+
 def _judge(args):
     vid, kind, prop, rules, src_root, edits_spec = args
     from sa.check import run_property
@@ -222,6 +316,8 @@ def _judge(args):
             edits.append((file, invert_ifelse))
         elif special == "hoist":
             edits.append((file, hoist_conditions))
+        elif special == "extract":
+            edits.append((file, extract_helpers))
         else:
             edits.append((file, (lambda o, n, c: (lambda t: apply_edit(t, o, n, c)))(old, new, count)))
     try:
@@ -314,7 +410,7 @@ def run(prop: str, seed: int, root: str, coverage_out: dict, jobs: int = 16, onl
     rnd.shuffle(vs)
     tasks = []
     for v in vs:
-        special = {"<unparse>": "unparse", "<rename-locals>": "rename", "<flip-comparisons>": "flip", "<invert-ifelse>": "invert", "<hoist-conditions>": "hoist"}.get(v.old)
+        special = {"<unparse>": "unparse", "<rename-locals>": "rename", "<flip-comparisons>": "flip", "<invert-ifelse>": "invert", "<hoist-conditions>": "hoist", "<extract-helpers>": "extract"}.get(v.old)
         files = v.file.split(",") if special else [v.file]
         tasks.append((v.vid, v.kind, prop, v.rules, root, [(f, v.old, v.new, v.count, special) for f in files]))
     results = []
